@@ -11,8 +11,8 @@ import (
 
 	"github.com/jotaen/klog/klog"
 	"github.com/jotaen/klog/klog/app/cli"
-	"github.com/jotaen/klog/klog/service"
 	cliutil "github.com/jotaen/klog/klog/app/cli/util"
+	"github.com/jotaen/klog/klog/service"
 
 	"klogverif/clidrv"
 	"klogverif/docgen"
@@ -21,6 +21,8 @@ import (
 )
 
 // C20 — the JSON output is well-formed and faithful to the data.
+
+var c20Times = []string{"<0:00", "<23:59", "<24:00", "0:00", "12:00am", "12:30am", "1:00am", "11:59", "11:59am", "12:00pm", "12:00", "12:30pm", "12:59pm", "1:00pm", "13:00", "11:59pm", "23:59", "24:00", "0:00>", "12:15am>", "12:45pm>", "23:59>"}
 
 var c20Alphabet = []string{"'", "\"", "\\", "\x01", "\x1f", "\x7f", "<", ">", "&", "é", "中", " ", "\xff", "#a", " ", "\\u0041", "\xe4\xb8"}
 
@@ -33,6 +35,15 @@ func c20Families(tier fw.Tier) []docFamily {
 				fs = append(fs, f)
 			}
 		}
+		// every ordered pair of boundary time literals (24 h and 12 h, shifted, the 24:00 spellings, the noon and midnight hours)
+		fs = append(fs, docFamily{"times", len(c20Times) * len(c20Times), func(i int) (string, []sm.Record, bool) {
+			a, b := c20Times[i/len(c20Times)], c20Times[i%len(c20Times)]
+			return "2021-05-05\n    " + a + " - " + b + " range\n\n2021-05-06 (1h!)\n    " + b + "-? open\n", nil, false
+		}})
+		// --now: the F3 documents of C02 (two records dated relative to the clock, open ranges at boundary times); the case index selects the clock
+		fs = append(fs, docFamily{"now", c02NowCount(), func(i int) (string, []sm.Record, bool) {
+			return c02NowDoc(docgen.Radix(i, len(c02NowDays), len(c02NowDays), len(c02NowStarts), len(c02NowClock), len(c02NowToday), 3)), nil, false
+		}})
 		k := 3
 		if tier == fw.Thorough {
 			k = 4
@@ -53,7 +64,7 @@ func init() {
 	fw.Register(&fw.Check{
 		ID:    "C20",
 		Title: "The JSON output is well-formed and faithful to the data",
-		Rule: "documents: FA1 (one record x value menus), the full formatting product FB, every single-edit document FD1 (valid and invalid), and ALL strings of 1..3 (quick) / 1..4 (thorough) symbols over " +
+		Rule: "documents: FA1 (one record x value menus), the full formatting product FB, every single-edit document FD1 (valid and invalid), every ordered pair of " + fmt.Sprint(len(c20Times)) + " boundary time literals as a range (+ open range), the " + fmt.Sprint(c02NowCount()) + " clock-relative documents of C02-F3 with `json --now` at their clock, and ALL strings of 1..3 (quick) / 1..4 (thorough) symbols over " +
 			"{\", \\, 0x01, 0x1F, 0x7F, <, >, &, é, 中, U+2028, 0xFF, #a, space, the six characters \\u0041, a truncated UTF-8 sequence} placed in record summary, entry summary, continuation line and tag value; " +
 			"each x {plain, --pretty, --sort asc, --sort desc, --date D, --tag a (documents containing #a)}. non-trivial = klog produced output; distinct by text hash.",
 		Assumptions: []string{
@@ -464,6 +475,32 @@ func c20Text(c *fw.Ctx, fam string, idx int, text string, viaCLI bool) {
 			kind := tc.kind
 			sel := c13Apply(ref.Records, []c13Clause{{kind: "type", entryOK: func(_ sm.Record, e sm.Entry) bool { return e.Kind == kind }}})
 			vs = append(vs, variant{"--entry-type " + tc.name, &cli.Json{FilterArgs: cliutil.FilterArgs{EntryType: tc.et}, InputFilesArgs: in}, []string{"--entry-type", tc.name}, expectFromRef(sel), false})
+		}
+	}
+	if fam == "now" && ref.Verdict == sm.Valid {
+		// `klog json --now` at the clock reading the case index selects: the open ranges appear closed at that instant
+		d := docgen.Radix(idx, len(c02NowDays), len(c02NowDays), len(c02NowStarts), len(c02NowClock), len(c02NowToday), 3)
+		td, clk := c02NowToday[d[4]], c02NowClock[d[3]]
+		closed, ok, _ := sm.CloseAt(ref.Records, sm.DayNumber(sm.Date{Y: td[0], M: td[1], D: td[2]}), clk[0]*60+clk[1])
+		o := clidrv.Opts{Now: dateAt(td[0], td[1], td[2], clk[0], clk[1])}
+		r := clidrv.Exec(home, o, &cli.Json{NowArgs: cliutil.NowArgs{Now: true}, InputFilesArgs: in})
+		if r.Panicked {
+			c.Violation("json-failed", cs(), fmt.Sprintf("klog json --now panicked: %v\n%s", r.PanicVal, r.Stack))
+			return
+		}
+		if ok {
+			if r.Code != 0 {
+				c.Violation("json-failed", cs(), fmt.Sprintf("klog json --now at %s failed: exit %d %s", o.Now.Format("2006-01-02 15:04"), r.Code, r.Err))
+				return
+			}
+			if why := c20CheckRecords(strings.TrimSuffix(r.Stdout, "\n"), expectFromRef(closed)); why != "" {
+				c.Violation("json-unfaithful", cs(), fmt.Sprintf("klog json --now at %s: %s\n%s", o.Now.Format("2006-01-02 15:04"), why, truncateStr(r.Stdout, 1500)))
+				return
+			}
+			c.Count("now_closed", 1)
+		} else if r.Code == 0 {
+			c.Violation("json-now-not-refused", cs(), fmt.Sprintf("klog json --now at %s must refuse (an open range cannot be closed at that instant):\n%s", o.Now.Format("2006-01-02 15:04"), truncateStr(r.Stdout, 800)))
+			return
 		}
 	}
 	for _, v := range vs {
